@@ -146,6 +146,13 @@ def cases(tier, seed):
             pp["nch"] = 3          # the smallest case with a second hidden chain end
         out.append({"kind": "run", "w": "topostress", "seed": seed * 50101 + i, "ff": ff, "opts": o, "extra_atoms": False,
                     "p": pp})
+    # nucleic strands (RNA under both naming styles, DNA) with waters, half of them with --drop-water
+    nn_ = 18 if tier == "quick" else 1500
+    for i in range(nn_):
+        ff = ["AMBER", "CHARMM", "PARSE", "TYL06"][i % 4]
+        out.append({"kind": "run", "w": "synth", "seed": seed * 62003 + i, "ff": ff, "extra_atoms": False,
+                    "opts": [f"--ff={ff}"] + (["--drop-water"] if i % 2 == 0 else []),
+                    "p": {"na_prob": 1.0, "waters": [2, 4], "nchains": 1 + i % 2}})
     # --ligand runs: peptide + MOL2 ligand + waters, some of them with atoms no force field knows (four-site water
     # EPW, a stray hetero atom): whatever is not written must be reported
     nl = 18 if tier == "quick" else 1500
